@@ -15,7 +15,7 @@
 (*  PerOctetPadded (C05): a complete PER encoding is a whole number of      *)
 (*                 octets, at least one                                    *)
 (***************************************************************************)
-EXTENDS TypeGen, Profile, X691Reader
+EXTENDS TypeGen, Profile, X691Reader, X696Reader
 
 Vals == Case.vals
 TheEnv == Case.env
@@ -73,6 +73,20 @@ PerPrefixFree ==
            octs == Complete(items)
        IN Flat(items) # <<>> =>
             \A k \in PrefixPoints(Len(octs)) : ~PerDecode(TheEnv, gT, SubSeq(octs, 1, k), al).ok
+
+\* (C06 / C16 on the model) the independently written reader X696Reader inverts the OER encoder and consumes
+\* exactly the encoding; no strict prefix of a non-empty encoding can be read
+OerReaderInverts ==
+  \A i \in 1..Len(Vals) :
+     Admits(TheEnv, gT, Vals[i]) =>
+       LET r == OerDecode(TheEnv, gT, OerEncode(TheEnv, gT, Vals[i], {})) IN
+       r.ok /\ OMatches(TheEnv, gT, Vals[i], r.v)
+
+OerPrefixFree ==
+  \A i \in 1..Len(Vals) :
+     Admits(TheEnv, gT, Vals[i]) =>
+       LET octs == OerEncode(TheEnv, gT, Vals[i], {}) IN
+       \A k \in PrefixPoints(Len(octs)) : k < Len(octs) => ~OerDecode(TheEnv, gT, SubSeq(octs, 1, k)).ok
 
 PerOctetPadded ==
   \A i \in 1..Len(Vals) :
